@@ -57,6 +57,14 @@ def run(plan):
             if o.kind != "ok":
                 res.fail(f"genuine handshake raised {o.exc_type}", repr(o.exc))
                 return
+        non_custom = bool(plan.get("non_custom_fan"))
+        if non_custom:
+            # the client first learns that the device has no custom fan speeds (FAN_SPEED_CONTROL = 7)
+            dev.caps_pages = [([(0x0210, b"\x07"), (0x0214, b"\x01")], None)]
+            o = await s.do({"op": "caps"})
+            if o.kind != "ok":
+                res.fail(f"get_capabilities raised {o.exc_type}", repr(o.exc))
+                return
         for hexbody in plan["bodies"]:
             body = bytes.fromhex(hexbody)
             dev.raw_state = (body, with_msgid)
@@ -69,6 +77,8 @@ def run(plan):
                 res.fail("refresh of a valid state report left the device offline/unsupported", hexbody)
                 return
             exp, d = expected(body)
+            if non_custom and exp.get("fan_speed") not in (20, 40, 60, 80, 100, 102):
+                exp.pop("fan_speed", None)       # unnamed speed on a device without custom speeds: unspecified
             if parsed_len < 20:
                 exp["target_humidity"] = None
             elif with_msgid and len(body) < 20:
@@ -102,7 +112,7 @@ def run(plan):
     except (SimDeadlock, SimStepLimit) as e:
         res.fail(f"liveness: {type(e).__name__}", str(e))
     res.take(w)
-    res.key = (plan.get("check_style"), with_msgid, tuple(plan["bodies"]))
+    res.key = (plan.get("check_style"), with_msgid, bool(plan.get("non_custom_fan")), tuple(plan["bodies"]))
     res.nontrivial = True
     return res
 
@@ -168,6 +178,8 @@ def space(tier):
     sp.add("lengths", 25 * 2 * (4 if tier == "quick" else 40), f_len, exhaustive=True)
 
     def f_rand(j, rng):
-        return mk([rand_body(rng, rng.choice([24, 24, 22, 25, 30])) for _ in range(16)], j, rng)
+        p = mk([rand_body(rng, rng.choice([24, 24, 22, 25, 30])) for _ in range(16)], j, rng)
+        p["non_custom_fan"] = (j % 3 == 0)
+        return p
     sp.add("random", 600 if tier == "quick" else 40_000, f_rand)
     return sp
